@@ -301,6 +301,7 @@ pub fn run(ctx: &Ctx) -> i32 {
     if bad * 50 > rep.stats.evaluations.max(1) {
         rep.infra_errors.push(format!("{} generator health failures in {} evaluations: {:?}", bad, rep.stats.evaluations, rep.stats.notes));
     }
+    crate::fuzzrun::tape_campaign(ctx, &mut rep, "C02", &gates);
     rep.replay_witnesses(&ctx.findings, &|w| witness(w));
     rep.extra.insert("gates_off".into(), json!(off));
     rep.assumptions = vec![
@@ -366,4 +367,11 @@ pub fn replay(ctx: &Ctx, v: &Value) -> i32 {
             1
         }
     }
+}
+
+/// one tape through the in-process oracle (used by the coverage-guided `tapes` fuzz target)
+pub fn fuzz_one(tape: &[u8], gates: &Gates) -> Result<(), Failure> {
+    let mut s = Stats::default();
+    let zero = std::sync::atomic::AtomicI64::new(0);
+    check_tape(tape, gates, &mut s, false, 2, 40, &zero)
 }
